@@ -520,8 +520,8 @@ class ProjectData(sc.prettyobj):
                                 if obj_type in ["comps", "characs"] or ("format" in spec and spec["format"] is not None and ts.units.lower().strip() != spec["format"].lower().strip()):
                                     if ts.units != framework_units:
                                         raise InvalidDatabook('%s. Unit "%s" for %s (%s) does not match the declared units from the Framework (expecting "%s")' % (location, ts.units, tdve.name, name, framework_units))
-                            if obj_type == "par" and spec["timed"] == "y":
-                                assert not ts.has_time_data, "%s. Parameter %s (%s) is marked as a timed transition in the Framework, so it must have a constant value (i.e., the databook cannot contain time-dependent values for this parameter)" % (location, tdve.name, name)
+                            if obj_type == "pars" and spec["timed"] == "y" and ts.has_time_data:
+                                raise InvalidDatabook("%s. Parameter %s (%s) is marked as a timed transition in the Framework, so it must have a constant value (i.e., the databook cannot contain time-dependent values for this parameter)" % (location, tdve.name, name))
 
         for tdc in self.interpops + self.transfers:
             if tdc.from_pop_type is None:  # Supply default pop type
